@@ -397,3 +397,83 @@ theorem pruneL_has_file (O : Own) : (cs : List Node) → pruneL O cs ≠ [] → 
 end
 
 end Restli.CleanDir
+
+/-! Links are never followed: cleaning commutes with rewriting link destinations. -/
+namespace Restli.CleanDir
+
+theorem retarget_name (g : String → String) (c : Node) : (retarget g c).name = c.name := by
+  cases c <;> simp [retarget, Node.name]
+
+theorem retargetL_isEmpty (g : String → String) (cs : List Node) :
+    (retargetL g cs).isEmpty = cs.isEmpty := by
+  cases cs <;> simp [retargetL]
+
+theorem retargetL_append (g : String → String) (a b : List Node) :
+    retargetL g (a ++ b) = retargetL g a ++ retargetL g b := by
+  induction a with
+  | nil => simp [retargetL]
+  | cons x xs ih => simp [retargetL, ih]
+
+theorem retargetL_toList (g : String → String) (o : Option Node) :
+    retargetL g o.toList = (o.map (retarget g)).toList := by
+  cases o <;> simp [retargetL]
+
+theorem manifestBlocked_retargetL (O : Own) (g : String → String) (cs : List Node) :
+    manifestBlocked O (retargetL g cs) = manifestBlocked O cs := by
+  induction cs with
+  | nil => simp [retargetL]
+  | cons c rest ih =>
+    cases c with
+    | file n l => simp [retargetL, retarget, manifestBlocked, ih]
+    | dir n cs0 => simp [retargetL, retarget, manifestBlocked, ih, retargetL_isEmpty]
+
+theorem dropManifest_retargetL (O : Own) (g : String → String) (cs : List Node) :
+    dropManifest O (retargetL g cs) = retargetL g (dropManifest O cs) := by
+  induction cs with
+  | nil => simp [retargetL, dropManifest]
+  | cons c rest ih =>
+    simp only [retargetL, dropManifest, retarget_name, ih]
+    split <;> simp [retargetL]
+
+mutual
+theorem cleanOuter_retarget (O : Own) (g : String → String) : (t : Node) → (dot : Bool) →
+    cleanOuter O dot (retarget g t) =
+      ⟨(cleanOuter O dot t).node.map (retarget g), (cleanOuter O dot t).err⟩
+  | .file n l, _ => by simp [cleanOuter, retarget]
+  | .dir n cs, dot => by
+    have hc := cleanChildren_retarget O g cs
+    simp only [retarget, cleanOuter, manifestBlocked_retargetL, hc]
+    by_cases hb : manifestBlocked O cs = true
+    · simp [hb, retarget]
+    · simp only [Bool.not_eq_true] at hb
+      simp only [hb, Bool.false_eq_true, ↓reduceIte]
+      cases hcc : cleanChildren O cs with
+      | mk cs' e =>
+        simp only [retargetL_isEmpty]
+        cases e with
+        | true => simp [retarget]
+        | false =>
+          simp only [Bool.false_eq_true, ↓reduceIte]
+          split <;> simp [retarget]
+theorem cleanChildren_retarget (O : Own) (g : String → String) : (cs : List Node) →
+    cleanChildren O (retargetL g cs) = (retargetL g (cleanChildren O cs).1, (cleanChildren O cs).2)
+  | [] => by simp [cleanChildren, retargetL]
+  | .file n l :: rest => by
+    have ih := cleanChildren_retarget O g rest
+    simp only [retargetL, retarget, cleanChildren, ih]
+    split <;> simp [retargetL, retarget]
+  | .dir n cs :: rest => by
+    have ih := cleanChildren_retarget O g rest
+    have ho := cleanOuter_retarget O g (.dir n cs) false
+    simp only [retarget] at ho
+    simp only [retargetL, retarget, cleanChildren, ih, ho]
+    split
+    · rfl
+    · cases hco : cleanOuter O false (.dir n cs) with
+      | mk r e =>
+        cases e with
+        | true => simp [retargetL_append, retargetL_toList, dropManifest_retargetL]
+        | false => simp [retargetL_append, retargetL_toList]
+end
+
+end Restli.CleanDir
